@@ -45,7 +45,7 @@ func (c *Channel) read() {
 	defer func() {
 		util.Yield("chan.read.exit")
 
-		c.readLoopExited = true
+		c.readLoopExited.Store(true)
 	}()
 
 	for {
@@ -141,7 +141,7 @@ func (c *Channel) Read() ([]byte, error) {
 
 	util.Yield("chan.Read.flag")
 
-	if c.readLoopExited {
+	if c.readLoopExited.Load() {
 		return nil, util.ErrConnectionError
 	}
 
